@@ -147,7 +147,17 @@ func init() {
 			return r
 		},
 		"strings.Contains": func(ex *Exec, a []Value, fr *Frame, pos token.Pos) Value {
-			return boolConst(strings.Contains(ex.concStr(a[0].(StrV), "strings.Contains"), ex.concStr(a[1].(StrV), "strings.Contains")))
+			h, n := a[0].(StrV), a[1].(StrV)
+			if h.sym != nil && n.sym == nil && len(n.s) == 1 {
+				if bs, ok := ex.asBytes(h); ok {
+					r := termFalse
+					for _, b := range bs {
+						r = tOr(r, tEq(b, bvConst(8, uint64(n.s[0]))))
+					}
+					return r
+				}
+			}
+			return boolConst(strings.Contains(ex.concStr(h, "strings.Contains"), ex.concStr(n, "strings.Contains")))
 		},
 		"strings.HasPrefix": func(ex *Exec, a []Value, fr *Frame, pos token.Pos) Value {
 			return boolConst(strings.HasPrefix(ex.concStr(a[0].(StrV), "strings.HasPrefix"), ex.concStr(a[1].(StrV), "strings.HasPrefix")))
@@ -172,17 +182,19 @@ func init() {
 				return StrV{s: strings.TrimSpace(s.s)}
 			}
 			if s.sym.kind == symBytes {
-				// harness contract: symbolic byte strings contain no leading/trailing space (checked)
 				bs := s.sym.bytes
-				if len(bs) > 0 {
-					sp := func(b *Term) *Term {
-						return tOrN(tEq(b, bvConst(8, ' ')), tEq(b, bvConst(8, '\t')), tEq(b, bvConst(8, '\n')), tEq(b, bvConst(8, '\r')), tEq(b, bvConst(8, 0x0b)), tEq(b, bvConst(8, 0x0c)))
-					}
-					if ex.decide(tOr(sp(bs[0]), sp(bs[len(bs)-1]))) {
-						panic(unsupported{"TrimSpace on symbolic bytes with boundary whitespace"})
-					}
+				isSp := func(b *Term) *Term {
+					return tOrN(tEq(b, bvConst(8, ' ')), tEq(b, bvConst(8, '\t')), tEq(b, bvConst(8, '\n')), tEq(b, bvConst(8, '\r')), tEq(b, bvConst(8, 0x0b)), tEq(b, bvConst(8, 0x0c)))
 				}
-				return s
+				for len(bs) > 0 && ex.decide(isSp(bs[0])) {
+					bs = bs[1:]
+				}
+				for len(bs) > 0 && ex.decide(isSp(bs[len(bs)-1])) {
+					bs = bs[:len(bs)-1]
+				}
+				ns := newSymStr(symBytes)
+				ns.bytes = bs
+				return ex.normBytes(ns)
 			}
 			return StrV{s: strings.TrimSpace(ex.concStr(s, "strings.TrimSpace"))}
 		},
@@ -366,7 +378,52 @@ func (ex *Exec) regexpFindSubmatch(a []Value, fr *Frame, pos token.Pos) Value {
 	if h := ex.submatchStub; h != nil {
 		return h(re, s)
 	}
+	if bs, ok := ex.asBytes(s); ok {
+		return ex.submatchSkeleton(re, bs)
+	}
 	return ex.strSliceValue(re.FindStringSubmatch(ex.concStr(s, "FindStringSubmatch")))
+}
+
+// submatchSkeleton matches a byte string whose symbolic bytes are all decimal digits. The regexp must be
+// digit-uniform (its only digit-sensitive atoms are [0-9] classes), so the match structure is the same for every
+// digit value: the real regexp engine runs on a skeleton in which each symbolic digit is replaced by '7', and the
+// resulting group boundaries are mapped back onto the symbolic bytes.
+func (ex *Exec) submatchSkeleton(re *regexp.Regexp, bs []*Term) Value {
+	src := re.String()
+	stripped := strings.ReplaceAll(src, "[0-9]", "")
+	stripped = regexp.MustCompile(`\(\?P<[A-Za-z0-9_]+>`).ReplaceAllString(stripped, "(")
+	if strings.ContainsAny(stripped, "0123456789") || strings.Contains(stripped, "\\d") || strings.Contains(stripped, "[") {
+		panic(unsupported{"FindStringSubmatch on symbolic digits with a regexp that is not digit-uniform"})
+	}
+	skel := make([]byte, len(bs))
+	for i, b := range bs {
+		if b.conc {
+			skel[i] = byte(b.cv)
+			continue
+		}
+		isDigit := tAnd(bvUle(bvConst(8, '0'), b), bvUle(b, bvConst(8, '9')))
+		if ex.feasible(tNot(isDigit)) {
+			panic(unsupported{"FindStringSubmatch on symbolic bytes that may be non-digits"})
+		}
+		skel[i] = '7'
+	}
+	ex.stubsHit["regexp.FindStringSubmatch on digit skeleton (digit-uniform regexp)"]++
+	idx := re.FindStringSubmatchIndex(string(skel))
+	if idx == nil {
+		return SliceV{}
+	}
+	n := len(idx) / 2
+	arr := make([]*Cell, n)
+	for g := 0; g < n; g++ {
+		var v StrV
+		if idx[2*g] >= 0 {
+			ns := newSymStr(symBytes)
+			ns.bytes = bs[idx[2*g]:idx[2*g+1]]
+			v = ex.normBytes(ns)
+		}
+		arr[g] = ex.newCellVal(types.Typ[types.String], v)
+	}
+	return SliceV{arr: arr, n: n, cp: n, nonNil: true}
 }
 
 func (ex *Exec) indexByte(a []Value, fr *Frame, pos token.Pos) Value {
